@@ -69,6 +69,36 @@ Theorem C08_genuine_reply_delivered :
 Proof. exact genuine_reply_delivered. Qed.
 Print Assumptions C08_genuine_reply_delivered.
 
+(* Admissible choice.  The property constrains acceptance ("only if"); an implementation may refuse MORE.  The model
+   leaves open exactly one such refusal: a datagram whose Message-Authenticator is irregular (attribute 80 of a length
+   other than 18, or more than one attribute 80 — [ma_irregular]) may be ignored although everything that is checked
+   verifies.  [cstep_g]/[crun_g] take the implementation's answer per datagram.  The authenticity theorem holds for
+   every history AND every sequence of such answers, ... *)
+Theorem C08_reply_authentic_any_policy :
+  forall md5raw fl, f_reply fl = true ->
+  forall secret (ops : list (cop * bool)) st outs,
+    Forall op_wf (map fst ops) ->
+    crun_g md5raw fl secret pending0 ops = (st, outs) ->
+    deliveries_authentic md5raw secret (rev (events (map fst ops) outs)).
+Proof. exact reply_authentic_g. Qed.
+Print Assumptions C08_reply_authentic_any_policy.
+
+(* ... and the positive half is demanded only of REGULAR datagrams, where no choice exists: under every policy a
+   regular datagram that verifies against the outstanding request is handed over. *)
+Theorem C08_regular_genuine_reply_delivered_any_policy :
+  forall md5raw fl, f_reply fl = true ->
+  forall secret (ops : list (cop * bool)) st outs rej d p req,
+    Forall op_wf (map fst ops) ->
+    crun_g md5raw fl secret pending0 ops = (st, outs) ->
+    parse d = Some p ->
+    awaiting (rev (events (map fst ops) outs)) (p_id p) = Some req ->
+    resp_auth_ok md5raw secret (sub 4 16 req) (truncate d) = true ->
+    ma_resp_ok md5raw secret (sub 4 16 req) (truncate d) = true ->
+    ma_irregular (truncate d) = false ->
+    snd (cstep_g md5raw fl rej secret st (CRecv d)) = Some (p_id p).
+Proof. exact regular_genuine_reply_delivered. Qed.
+Print Assumptions C08_regular_genuine_reply_delivered_any_policy.
+
 (* Provider.Authenticate (one server, one try): whatever it returns other than an error was decided by a
    datagram that is among those received, carries the identifier of the request, has the matching code
    (Access-Accept for Allowed — with exactly the attributes extracted from THAT datagram — Access-Reject for
@@ -300,8 +330,37 @@ Proof.
 Qed.
 Print Assumptions C08_disconnect_window_refuted.
 
+(* The listener with the same admissible choice ([coa_step_g]: an authenticated request with an irregular
+   Message-Authenticator may be dropped as invalid).  Whatever the choice, nothing takes effect that would not take effect
+   without it — so C08_coa_admission, C08_coa_mutable_only and the replay bounds carry over to every policy — and on a
+   request with a regular Message-Authenticator the choice does not exist. *)
+Theorem C08_coa_any_policy_only_restricts :
+  forall md5raw fl rej cfg now src bus raw e,
+    effect (coa_step_g md5raw fl rej cfg now src bus raw) = Some e ->
+    effect (coa_step md5raw fl cfg now src bus raw) = Some e.
+Proof. exact coa_step_g_effect_any. Qed.
+Print Assumptions C08_coa_any_policy_only_restricts.
+
+Theorem C08_coa_policy_irrelevant_for_regular_ma :
+  forall md5raw fl rej cfg now src bus raw,
+    ma_irregular (truncate raw) = false ->
+    coa_step_g md5raw fl rej cfg now src bus raw = coa_step md5raw fl cfg now src bus raw.
+Proof. exact coa_step_g_regular. Qed.
+Print Assumptions C08_coa_policy_irrelevant_for_regular_ma.
+
+(* a correctly signed Disconnect-Request carrying an attribute 80 of length 5: HEAD's policy (accept) and the stricter one
+   (drop as invalid) are both admissible; a regular request is unaffected *)
+Definition ex_dm_badma : bytes := sign_req [107] [40; 9; 0; 35] [44; 4; 115; 49; 55; 6; 0; 0; 3; 232; 80; 5; 1; 2; 3].
+Example C08_admissible_choice_nonvacuous :
+  ma_irregular ex_dm_badma = true /\ ma_irregular ex_dm = false /\
+  effect (coa_step_g toy head false ex_cfg 1100 2130706434 0 ex_dm_badma) = Some (EvTerminate (1, [115; 49])) /\
+  coa_step_g toy head true ex_cfg 1100 2130706434 0 ex_dm_badma = ODropInvalid 0 [SInvalid] /\
+  effect (coa_step_g toy head true ex_cfg 1100 2130706434 0 ex_dm) = Some (EvTerminate (1, [115; 49])).
+Proof. vm_compute. repeat split; reflexivity. Qed.
+Print Assumptions C08_admissible_choice_nonvacuous.
+
 (* Single execution (duplicate detection, committed in 3a9d01d; [f_dedup] — true in [head] and [repaired]).  Over any history of
-   datagrams reaching the listener: two datagrams with the same key — same client secret, same code, identifier,
+   datagrams reaching the listener and any sequence of admissible choices (the [rej] component of an input): two datagrams with the same key — same client secret, same code, identifier,
    length and Request Authenticator, i.e. byte-identical requests unless MD5 collides — do not both take
    effect; the later one is answered with the cached reply. *)
 Theorem C08_coa_single_execution :
@@ -320,7 +379,7 @@ Print Assumptions C08_coa_single_execution.
 Definition ex_dm_user : bytes := sign_req [107] [40; 5; 0; 30] [1; 4; 97; 108; 55; 6; 0; 0; 3; 232].
 Definition ex_coa_a : bytes := sign_req [107] [43; 6; 0; 36] [1; 4; 97; 108; 27; 6; 0; 0; 14; 16; 55; 6; 0; 0; 3; 232].
 Definition ex_coa_b : bytes := sign_req [107] [43; 7; 0; 36] [1; 4; 97; 108; 27; 6; 0; 0; 0; 60; 55; 6; 0; 0; 3; 232].
-Definition inp (now : Z) (raw : bytes) : coa_input := (now, 2130706434, 0, raw).
+Definition inp (now : Z) (raw : bytes) : coa_input := (now, 2130706434, 0, raw, false).
 
 Example C08_coa_single_execution_nonvacuous :
   f_dedup head = true /\
